@@ -222,6 +222,12 @@ func (otx olvmTx) Validate(ctx *action.Context, signedTx action.SignedTx) (bool,
 		return false, err
 	}
 
+	// only legacy transactions exist so far; the type and access list fields are covered by no
+	// signature (the access list would change the gas charged), so they have to be empty
+	if tx.TxType != 0 || tx.AccessList != nil {
+		return false, ethtypes.ErrTxTypeNotSupported
+	}
+
 	//validate basic signature
 	err = tx.validateSigner(ctx, signedTx)
 	if err != nil {
